@@ -124,11 +124,8 @@ def r1_retransmission(ctx, F):
     sblocks = po.reach([e[1] for e in swc[0].edges_for('Send')])
     snd = [c for c in po.calls if c.bb in sblocks and c.is_('Out::send')]
     ins = [c for c in po.calls if c.bb in sblocks and c.is_('HashMap::insert', 'HashableHashMap::insert')]
-    incs = []
-    for (i, si, st_) in po.assigns(lambda s_: s_['lhs']['p'] and isinstance(s_['lhs']['p'][-1], dict)
-                                   and s_['lhs']['p'][-1].get('name') == 'next_send_seq'):
-        if i in sblocks:
-            incs.append(i)
+    from common import stores_to_field
+    incs = [i for (i, st_) in stores_to_field(po, 'next_send_seq') if i in sblocks]
     ok = len(snd) == 1 and len(ins) == 1 and len(incs) == 1
     if ok:
         wire = po.val(snd[0].args[2])
